@@ -44,6 +44,7 @@ Simple(x) == [op |-> x]
 
 Prefix == CASE Family = "chain" -> <<W("a"), W("b")>>
             [] Family = "cache" -> <<W("a"), LR("R1"), LE("E1")>>
+            [] Family = "repair" -> <<W("a"), [op |-> "corrupt", p |-> "a", at |-> "payload"], RE("a")>>
             [] OTHER -> <<>>
 
 OpsChain == IF Alpha = "full"
@@ -80,7 +81,7 @@ DkAfter(k, o) ==
     [] o.op \in {"cut", "rmdata"} -> [k EXCEPT !.live = {}, !.arch = TRUE]      \* the environment's damage ends the promise
     [] OTHER -> k
 
-InstInit == /\ I = FoldOps(InS0, Prefix, 1) /\ hist = <<>> /\ chk = TRUE /\ last = <<>> /\ dk = Dk0
+InstInit == /\ I = (IF Family = "repair" THEN InS0 ELSE FoldOps(InS0, Prefix, 1)) /\ hist = <<>> /\ chk = TRUE /\ last = <<>> /\ dk = Dk0
 InstNext ==
   \E o \in InstOps :
     /\ hist' = Append(hist, o)
@@ -91,7 +92,7 @@ InstNext ==
               /\ I' = InReadGhost(H, I, KindOf(o), ArgOf(o), out)
               /\ chk' = IdealPred(I, o, out)
               /\ last' = <<o, out, I>>
-       ELSE /\ I' = IF Family = "dur" THEN I ELSE InAfter0(H, I, o @@ [res |-> "ok"])
+       ELSE /\ I' = IF Family \in {"dur", "repair"} THEN I ELSE InAfter0(H, I, o @@ [res |-> "ok"])
             /\ chk' = TRUE /\ last' = <<>>
 
 Refines == chk
@@ -186,13 +187,13 @@ SetInit == /\ I = <<>> /\ chk = TRUE /\ last = <<>> /\ dk = <<>>
            /\ hist \in (IF Family = "binfo" THEN BiPrograms ELSE VaPrograms)
 SetNext == UNCHANGED <<I, hist, chk, last, dk>>
 
-MCInit == CASE Family \in {"chain", "cache", "dur"} -> InstInit [] Family \in {"binfo", "val"} -> SetInit [] OTHER -> GenInit
-MCNext == CASE Family \in {"chain", "cache", "dur"} -> InstNext [] Family \in {"binfo", "val"} -> SetNext [] OTHER -> GenNext
+MCInit == CASE Family \in {"chain", "cache", "dur", "repair"} -> InstInit [] Family \in {"binfo", "val"} -> SetInit [] OTHER -> GenInit
+MCNext == CASE Family \in {"chain", "cache", "dur", "repair"} -> InstNext [] Family \in {"binfo", "val"} -> SetNext [] OTHER -> GenNext
 Constr == Family \in {"binfo", "val"} \/ Len(hist) <= D
 
 InstProgram == [fam |-> "inst", payloads |-> PayTbl, roots |-> Roots, encs |-> Encs, paths |-> Paths, ops |-> Prefix \o hist]
 Programs ==
-  CASE Family \in {"chain", "cache", "dur"} -> {InstProgram}
+  CASE Family \in {"chain", "cache", "dur", "repair"} -> {InstProgram}
     [] Family = "stor"     -> {[fam |-> "stor", payloads |-> <<PayTbl[1]>>, ops |-> hist]}
     [] Family = "kres"     -> {[fam |-> "kmt", sub |-> "res", keys |-> KrKeys, ops |-> hist \o <<[op |-> "save"], [op |-> "reload", ro |-> FALSE]>>]}
     [] Family = "kresflip" -> {[fam |-> "kmt", sub |-> "res", keys |-> KrKeys, ops |-> hist \o <<[op |-> "save"], f, [op |-> "reload", ro |-> FALSE]>>] : f \in KrFlips}
